@@ -167,21 +167,45 @@ class RefServer:
     """
 
     WALL_LIMIT = 300
+    _BOOT = ("import sys, socket\n"
+             "sys.dont_write_bytecode = True\n"
+             "sys.path.insert(0, sys.argv[2])\n"
+             "from sim import proc\n"
+             "proc.install(proc.RepoSnapshot())\n"
+             "from sim import refimpl\n"
+             "refimpl.prepare()\n"
+             "proc.RefServer._serve(proc.RefServer, socket.socket(fileno=int(sys.argv[1])))\n")
 
-    def __init__(self):
+    def __init__(self, hashseed=None):
+        """hashseed None: the zygote is forked from this (so far untouched) worker.
+        hashseed n: the zygote is a brand-new interpreter started with PYTHONHASHSEED=n - a fresh
+        process in the full sense: its str/bytes hashing, hence the iteration order of every set and
+        the collision pattern of every dict, differs from this worker's, as it does between any two
+        real runs of the tool (hash randomisation is on by default)."""
         self.cache = {}
         self.calls = 0
         self.hits = 0
-        from sim import refimpl
-        refimpl.prepare()
+        self.hashseed = hashseed
         a, b = socket.socketpair()
-        pid = os.fork()
-        if pid == 0:
-            try:
-                a.close()
-                self._serve(b)
-            finally:
-                os._exit(0)
+        if hashseed is None:
+            from sim import refimpl
+            refimpl.prepare()
+            pid = os.fork()
+            if pid == 0:
+                try:
+                    a.close()
+                    self._serve(b)
+                finally:
+                    os._exit(0)
+            self.popen = None
+        else:
+            import subprocess
+            env = dict(os.environ, PYTHONHASHSEED=str(int(hashseed)), PYTHONUTF8="1", PYTHONDONTWRITEBYTECODE="1",
+                       VERIF_REPO_DIR=REPO_DIR)
+            verif_dir = os.path.dirname(os.path.dirname(os.path.abspath(__file__)))
+            self.popen = subprocess.Popen([sys.executable, "-c", self._BOOT, str(b.fileno()), verif_dir],
+                                          pass_fds=(b.fileno(),), env=env, stdin=subprocess.DEVNULL, cwd="/")
+            pid = self.popen.pid
         b.close()
         self.sock = a
         self.pid = pid
@@ -246,6 +270,9 @@ class RefServer:
         except OSError:
             pass
         try:
-            os.waitpid(self.pid, 0)
-        except OSError:
+            if self.popen is not None:
+                self.popen.wait(timeout=30)
+            else:
+                os.waitpid(self.pid, 0)
+        except Exception:
             pass
